@@ -22,7 +22,7 @@ import numpy as np
 
 import core
 
-PROOF_MODULES = ["UnytProofs.C17", "UnytProofs.C17Observed", "UnytProofs.Real.C17Real"]
+PROOF_MODULES = ["UnytProofs.C17", "UnytProofs.C17Observed", "UnytProofs.C17Chains", "UnytProofs.Real.C17Real"]
 
 PREC = {2: 11, 4: 24, 8: 53, 16: 64}
 # precision the *values* can have: the conversion factor is a Python float (binary64)
@@ -259,10 +259,165 @@ def chunks(vals, n):
 # ------------------------------------------------------------------------------------------
 
 
+# ------------------------------------------------------------------------------------------
+# equivalence routes: the defining formulas, hand-written (SI), for every branch
+
+DIMS = {"(length)": "L", "1/(time)": "F", "(length)**2*(mass)/(time)**2": "E", "1/(length)": "S", "(mass)": "M",
+        "(temperature)": "T", "(length)/(time)": "V", "1": "1", "(mass)/(length)**3": "RHO", "(length)**(-3)": "N",
+        "(mass)/(time)**3": "FLUX"}
+
+
+def _fsqrt(q):
+    return Fraction(math.sqrt(float(q)))
+
+
+def equiv_reference():
+    """(equivalence, from, to) -> formula on Fractions; E = kT, E = mc^2, E = h nu = h c / lambda = h c nubar,
+    c_s^2 = gamma k T / (mu m_H), gamma = 1/sqrt(1 - beta^2), r_s = 2 G M / c^2, lambda_C = h / (m c),
+    F = sigma T^4, rho = mu m_H n.  Constants: the library's own SI values (their correctness is C15's)."""
+    import unyt.physical_constants as pc
+
+    def K(q):
+        return Fraction(float(q.in_mks().v))
+
+    h, c, kb, mh, G, sg = K(pc.h_mks), K(pc.clight), K(pc.kboltz), K(pc.mh), K(pc.G), K(pc.stefan_boltzmann_constant_mks)
+    mu, gamma = Fraction(6, 10), Fraction(5, 3)
+    return {
+        ("number_density", "RHO", "N"): lambda x: x / (mu * mh),
+        ("number_density", "N", "RHO"): lambda x: x * mu * mh,
+        ("thermal", "T", "E"): lambda x: kb * x,
+        ("thermal", "E", "T"): lambda x: x / kb,
+        ("mass_energy", "M", "E"): lambda x: x * c * c,
+        ("mass_energy", "E", "M"): lambda x: x / (c * c),
+        ("spectral", "L", "F"): lambda x: c / x,
+        ("spectral", "L", "E"): lambda x: h * c / x,
+        ("spectral", "L", "S"): lambda x: 1 / x,
+        ("spectral", "F", "L"): lambda x: c / x,
+        ("spectral", "F", "E"): lambda x: h * x,
+        ("spectral", "F", "S"): lambda x: x / c,
+        ("spectral", "E", "L"): lambda x: h * c / x,
+        ("spectral", "E", "F"): lambda x: x / h,
+        ("spectral", "E", "S"): lambda x: x / (h * c),
+        ("spectral", "S", "L"): lambda x: 1 / x,
+        ("spectral", "S", "F"): lambda x: x * c,
+        ("spectral", "S", "E"): lambda x: x * h * c,
+        ("sound_speed", "V", "T"): lambda x: x * x * mu * mh / (gamma * kb),
+        ("sound_speed", "V", "E"): lambda x: mu * mh * x * x / gamma,
+        ("sound_speed", "T", "V"): lambda x: _fsqrt(gamma * kb * x / (mu * mh)),
+        ("sound_speed", "T", "E"): lambda x: kb * x,
+        ("sound_speed", "E", "V"): lambda x: _fsqrt(gamma * x / (mu * mh)),
+        ("sound_speed", "E", "T"): lambda x: x / kb,
+        ("lorentz", "1", "V"): lambda x: c * _fsqrt(1 - 1 / (x * x)),
+        ("lorentz", "V", "1"): lambda x: 1 / _fsqrt(1 - (x / c) * (x / c)),
+        ("schwarzschild", "M", "L"): lambda x: 2 * G * x / (c * c),
+        ("schwarzschild", "L", "M"): lambda x: c * c * x / (2 * G),
+        ("compton", "M", "L"): lambda x: h / (c * x),
+        ("compton", "L", "M"): lambda x: h / (c * x),
+        ("effective_temperature", "FLUX", "T"): lambda x: Fraction(float(x / sg) ** 0.25),
+        ("effective_temperature", "T", "FLUX"): lambda x: sg * x ** 4,
+    }
+
+
+EQUIV_VALUES = [2, 3, 4, 7, 100, 300, 1600, 30000, 100000, 2 * 10 ** 8]
+
+
+def equiv_sweep(chk, tier, universe, snippet):
+    """value oracle on the equivalence routes, every branch: exact reference of the defining formula
+    rounded to the required dtype, copy and in-place routes, integer / unsigned / float data"""
+    quick = tier == "quick"
+    try:
+        import json
+        branches = json.load(open(os.path.join(core.BUILD, "extract_c17_equiv_chains.json"), encoding="utf-8"))["branches"]
+    except Exception as e:  # noqa: BLE001
+        chk.disagree("equiv-chains", f"branch list not available: {e!r}")
+        return
+    REF = equiv_reference()
+    copy_routes = [("to_equivalent", "r = x.to_equivalent('{b}', '{eq}')\n"), ("to(equivalence=)", "r = x.to('{b}', equivalence='{eq}')\n")]
+    inpl_routes = [("convert_to_equivalent", "x.convert_to_equivalent('{b}', '{eq}'); r = x\n")]
+    if not quick:
+        copy_routes += [("in_units(equivalence=)", "r = x.in_units('{b}', equivalence='{eq}')\n"), ("to_value(equivalence=)", "r = x.to_value('{b}', equivalence='{eq}')\n")]
+        inpl_routes += [("convert_to_units(equivalence=)", "x.convert_to_units('{b}', equivalence='{eq}'); r = x\n")]
+    for br in branches:
+        fd, td = DIMS.get(br["from_dim"]), DIMS.get(br["to_dim"])
+        f = REF.get((br["equiv"], fd, td))
+        if f is None:
+            chk.disagree("equiv-reference", f"no hand-written reference formula for branch {br['equiv']} {br['from_dim']} -> {br['to_dim']}")
+            continue
+        a, b, eq = br["from_unit"], br["to_unit"], br["equiv"]
+        bname = f"{eq}:{fd}->{td}"
+        for d in universe:
+            if d.kind not in "iuf" or (d.kind == "f" and d.itemsize not in (4, 8)):
+                continue
+            if d.kind in "iu":
+                info = np.iinfo(d)
+                vals = [v for v in EQUIV_VALUES if v <= info.max]
+            else:
+                vals = [float(v) for v in EQUIV_VALUES] + [2.5, 0.75]
+                if td == "V" and fd == "1":
+                    vals = [v for v in vals if v >= 1]
+            ed = expected_dtype(d)
+            cls = dclass(d)
+            for isq in (False, True):
+                use = vals if not isq else vals[1:2]
+                setup = arr_setup(use, d, a, isq)
+                got_by_class = {}
+                for kclass, routes in (("to_equivalent", copy_routes), ("convert_to_equivalent", inpl_routes)):
+                    for (name, tmpl) in routes:
+                        call = tmpl.format(b=b, eq=eq)
+                        R = Run(setup, call)
+                        chk.case(("equiv", bname, name, d.name, isq), {"route": name, "branch": bname, "dtype": d.name} if len(chk.samples) < 10 else None)
+                        chk.count(f"equiv:{eq}:{kclass}")
+                        if not R.ok:
+                            if not may_raise(d):
+                                chk.fail(f"equiv|raise|{kclass}|{bname}|{cls}", f"{name} {bname} on {d.name} raised {exc_class(R.exc)}",
+                                         {"python": snippet(setup, call), "error": repr(R.exc)[:200]})
+                            continue
+                        res = np.asarray(R.r)
+                        if res.dtype.kind not in "fc":
+                            chk.fail(f"value|{kclass}|{bname}|{cls}|integer-result", f"{name} {bname} on {d.name} returned {res.dtype.name} data",
+                                     {"python": snippet(setup, call + "assert np.asarray(r).dtype.kind in 'fc', np.asarray(r).dtype\n")})
+                            continue
+                        size = min(comp_size(res.dtype), comp_size(ed)) if type(R.r) is not float else comp_size(ed)
+                        if kclass == "convert_to_equivalent" and size == 2:
+                            chk.count("float16-equivalence-constants-out-of-range-skipped")
+                            continue
+                        xin = [e_[0] for e_ in elems(R.x_before)]
+                        want = [f(v) for v in xin]
+                        got = elems(res)
+                        sel = [i for i in range(len(want)) if in_range(want[i], size) and in_range(xin[i], size)]
+                        if kclass == "convert_to_equivalent" and size == 4:
+                            # float32 buffers: every intermediate of the chain must fit binary32 too
+                            sel = [i for i in sel if in_range(xin[i] * xin[i], 4) and in_range(want[i] * want[i], 4)]
+                        if not sel:
+                            chk.count("equiv-value-out-of-float-range-skipped")
+                            continue
+                        chk.count("equiv-value-checked", len(sel))
+                        u = Fraction(1, 2 ** VPREC[size])
+                        bad = [i for i in sel if got[i] is None or abs(got[i][0] - want[i]) > 64 * u * abs(want[i])]
+                        got_by_class[kclass] = (res, sel)
+                        if bad:
+                            wf = [float(want[i]) for i in sel]
+                            chk.fail(f"value|{kclass}|{bname}|{cls}", f"{name} {bname} on {d.name} {a}: got {[float(np.atleast_1d(res).ravel()[i].real) for i in bad][:4]} for inputs {[int(xin[i]) if d.kind in 'iu' else float(xin[i]) for i in bad][:4]}, the formula gives {[float(want[i]) for i in bad][:4]} (integer arithmetic on the input?)",
+                                     {"python": snippet(setup, call + f"rr = np.atleast_1d(np.asarray(r, dtype='c16')).real.ravel()[{sel!r}]\nassert np.allclose(rr, {wf!r}, rtol={float(64 * u)!r}, atol=0.0), rr\n"),
+                                      "branch": bname, "dtype": d.name, "route": name})
+                # copy vs in-place agreement on the values
+                if "to_equivalent" in got_by_class and "convert_to_equivalent" in got_by_class:
+                    (r1, s1), (r2, s2) = got_by_class["to_equivalent"], got_by_class["convert_to_equivalent"]
+                    common = [i for i in s1 if i in s2]
+                    size = min(comp_size(r2.dtype), comp_size(ed))
+                    u = 2.0 ** -VPREC[size]
+                    v1 = np.atleast_1d(np.asarray(r1, dtype="c16")).real.ravel()
+                    v2 = np.atleast_1d(np.asarray(r2, dtype="c16")).real.ravel()
+                    if common and not all(abs(v1[i] - v2[i]) <= 128 * u * abs(v2[i]) for i in common):
+                        call = copy_routes[0][1].format(b=b, eq=eq).replace("r = ", "r1 = ") + inpl_routes[0][1].format(b=b, eq=eq)
+                        chk.fail(f"agree|equivalence|{bname}|{cls}", f"to_equivalent and convert_to_equivalent disagree on the values for {bname} on {d.name}",
+                                 {"python": snippet(setup, call + f"a1 = np.atleast_1d(np.asarray(r1, dtype='c16')).real.ravel()[{common!r}]; a2 = np.atleast_1d(np.asarray(x, dtype='c16')).real.ravel()[{common!r}]\nassert np.allclose(a1, a2, rtol={128 * u!r}, atol=0.0), (a1, a2)\n")})
+
+
 RULE = ("every NumPy dtype (int8…uint64, float16…longdouble, complex64…complex256, bool for the model) x route spelling "
         "(to, in_units, to_value, convert_to_units, in_base/in_cgs/in_mks, convert_to_base/cgs/mks, to_equivalent, to(equivalence=), "
         "convert_to_equivalent, convert_to_units(equivalence=)) x scalar/array x exact unit pairs (integer, rational, offset, EM factors) "
-        "x values up to the dtype limits and around 2^11/2^24/2^53; every dtype pair x binary ufunc x scalar/array; every out= dtype; "
+        "x values up to the dtype limits and around 2^11/2^24/2^53; every equivalence branch (32) x integer/unsigned/float dtype x copy and in-place spellings against the hand-written formula; every dtype pair x binary ufunc x scalar/array; every out= dtype; "
         "distinct = distinct (route, dtype, shape, unit) / (ufunc, dtype0, dtype1, shapes) / out cell")
 
 
@@ -544,6 +699,9 @@ def _sweep(chk, tier):
                         w = elems(np.asarray(RR.r))
                         return w, [abs(e_[0]) * 4 if e_ is not None else Fraction(0) for e_ in w]
                     check_case(d, False, "K", name, kclass, mroute, call, None, None, [1, v], ref_float=ref_float)
+
+    # every equivalence branch: values against the defining formula, copy vs in-place
+    equiv_sweep(chk, tier, universe, snippet)
 
     # ============================================================ C. mixed-unit binary ufuncs
     arith = [("add", lambda p_, q_: p_ + q_), ("subtract", lambda p_, q_: p_ - q_), ("maximum", max), ("minimum", min)]
